@@ -19,7 +19,7 @@ def cas_to_comparable_text(
     covered_text: bool = True,
     exclude_types: Set[str] = None,
 ) -> [str, None]:
-    indexed_feature_structures = _get_indexed_feature_structures(cas)
+    indexed_feature_structures = {id(fs) for fs in _get_indexed_feature_structures(cas)}
     all_feature_structures_by_type = _group_feature_structures_by_type(cas._find_all_fs(seeds=seeds))
     types_sorted = sorted(all_feature_structures_by_type.keys())
     fs_id_to_anchor = _generate_anchors(
@@ -146,7 +146,7 @@ def _generate_anchors(
         feature_structures.sort(key=cmp_to_key(lambda a, b: _compare_fs(type_, a, b)))
 
         for fs in feature_structures:
-            add_index_mark = mark_indexed and fs in indexed_feature_structures
+            add_index_mark = mark_indexed and id(fs) in indexed_feature_structures
             anchor = _generate_anchor(fs, add_index_mark)
             disambiguation_id = disambiguation_by_prefix.get(anchor)
             disambiguation_by_prefix[anchor] += 1
